@@ -202,6 +202,7 @@ namespace riddle
       return tk;
     }
 
+    token *scan(); // returns the next token or, in case of comments and white spaces, nullptr..
     token *finish_id(std::string &str) noexcept;
 
     void error(const std::string &err);
